@@ -136,9 +136,10 @@ def r3(ctx):
 def r4(ctx):
     src = os.path.join(factbase.VERIF, "witness")
     h = factbase.source_hash(ctx.repo)
-    wd = os.path.join(factbase.CACHE, "witness-%s" % h)
-    if os.path.exists(wd):
-        shutil.rmtree(wd, ignore_errors=True)
+    # one scratch directory per run: two runs on identical sources (same hash) must not share - and delete - it
+    import tempfile
+    os.makedirs(factbase.CACHE, exist_ok=True)
+    wd = tempfile.mkdtemp(prefix="witness-%s-" % h, dir=factbase.CACHE)
     os.makedirs(os.path.join(wd, "src"))
     os.makedirs(os.path.join(wd, ".cargo"))
     shutil.copy(os.path.join(src, "src", "lib.rs"), os.path.join(wd, "src", "lib.rs"))
